@@ -32,6 +32,8 @@
  *     read    g nothing (GO_ON) | d headers (status 200) + data (GO_ON) | f EOF (FINISHED) | x error
  *     env     y ok | E 400+HANDLER_ERROR | F 400+HANDLER_FINISHED
  *     exhausted: connect p, socket y, so_error y, write a, read f, env y
+ * results: A<host>|A- (arrival choice), D<h>.<p> (connect() dialled), <slot>=wait, <slot>=fin<status>[s][t][h]
+ *   (s response begun, t truncated, h ended hostless: gw_reconnect() found no host), E<mask>, T, W, C
  * output: per op  <results>#<state dump>, ops joined by " | ", then the final
  *   leak check " | end:<open fds>,<cur_fds>".
  */
@@ -244,7 +246,7 @@ static array *mk_config(int nh, char **spec) {
         } else {
             n = snprintf(b, sizeof(b), "127.0.0.%d", i + 1);
             array_set_key_value(v, CONST_STR_LEN("host"), b, (uint32_t)n);
-            n = snprintf(b, sizeof(b), "%d", 9000 + i);
+            n = snprintf(b, sizeof(b), "%d", 9000 + 37 * i); /* (spread: host hashes must differ) */
             array_set_key_value(v, CONST_STR_LEN("port"), b, (uint32_t)n);
         }
         array_set_key_value(v, CONST_STR_LEN("check-local"), CONST_STR_LEN("disable"));
@@ -365,8 +367,12 @@ static void finish(int s, int aborted) {
     request_st * const r = &rq[s];
     if (!aborted) {
         int st = r->http_status ? r->http_status : 200;
-        res_add("%d=fin%d%s%s,", s, st, r->resp_body_started ? "s" : "",
-                (r->resp_body_started && NULL == r->handler_module) ? "t" : "");
+        /* 'h' = the context is still there but holds no host: gw_reconnect() asked
+         * gw_host_get() for another backend and got none ("all handlers down") */
+        const gw_handler_ctx * const hc = r->plugin_ctx[0];
+        res_add("%d=fin%d%s%s%s,", s, st, r->resp_body_started ? "s" : "",
+                (r->resp_body_started && NULL == r->handler_module) ? "t" : "",
+                (hc && NULL == hc->host) ? "h" : "");
     }
     r->state = aborted ? CON_STATE_ERROR : CON_STATE_RESPONSE_END;
     gw_handle_request_reset(r, &pd);
